@@ -1470,6 +1470,9 @@ func (e *Exec) hexEncode(st *State, sq *SeqV) *smt.Term {
 }
 
 func (e *Exec) revealed(name string) bool {
+	if e.RevealAll {
+		return true
+	}
 	if e.Spec == nil {
 		return false
 	}
